@@ -5,4 +5,7 @@ export CARGO_NET_OFFLINE=true
 mkdir -p /verif/work /verif/replays /verif/evidence
 cp /repo/Cargo.lock harness/Cargo.lock.repo 2>/dev/null
 (cd harness && cargo build --release --offline) || exit 1
-/verif/target/release/verif selftest
+/verif/target/release/verif selftest || exit 1
+# the fuzz targets of the thorough tiers (campaign.sh rebuilds them whenever /repo changed); not fatal here
+(cd harness && cargo +nightly fuzz build --sanitizer none >/verif/work/fuzz-build.log 2>&1) || echo "note: fuzz targets not built now (thorough tiers build them on first use)" >&2
+exit 0
